@@ -79,7 +79,8 @@ pub fn char_units(alpha: &'static [&'static str]) -> Vec<&'static [u8]> {
 const TEXT_CHARS: &[&str] = &[
     "a", "b", "Z", "0", "7", " ", " ", ".", "-", "_", "m", "[", "]", ";", ":", "?", "\\", "'", "\"", "&", "<", ">", "\u{e9}",
     "\u{df}", "\u{3a9}", "\u{6f22}", "\u{5b57}", "\u{1f600}", "\u{2705}", "\u{71c}", "\u{200b}", "\u{301}", "\u{80}",
-    "\u{9c}", "\u{a0}", "\u{ffff}", "\u{10ffff}", "\u{7ff}", "\u{800}", "\u{d7ff}", "\u{e000}",
+    "\u{9c}", "\u{a0}", "\u{ffff}", "\u{10ffff}", "\u{7ff}", "\u{800}", "\u{d7ff}", "\u{e000}", "\u{feff}", "\u{fdd0}", "\u{1fffe}", "\u{fffd}",
+    "\u{dc}",
 ];
 
 pub fn push_text(rng: &mut Rng, out: &mut Vec<u8>, max_chars: u64) {
@@ -104,7 +105,11 @@ fn push_number(rng: &mut Rng, out: &mut Vec<u8>) {
             }
         }
         6 => {
-            out.extend_from_slice(b"000");
+            // leading zeros, sometimes a lot of them (the value is what counts, not the number of digits)
+            let z = if rng.chance(1, 3) { rng.range(4, 24) } else { 3 };
+            for _ in 0..z {
+                out.push(b'0');
+            }
             out.extend_from_slice(rng.range(0, 300).to_string().as_bytes());
         }
         _ => out.extend_from_slice(rng.range(0, 120).to_string().as_bytes()),
@@ -372,22 +377,26 @@ enum Ul {
 pub struct SgrGen {
     ul: Ul,
     pub opts: SgrOpts,
+    long_k: u32,
+    /// largest threshold for long runs (0 = never generate long runs)
+    pub long_runs_up_to: usize,
 }
 
 const UNKNOWN_CODES: &[u16] = &[10, 11, 15, 20, 26, 50, 51, 53, 55, 57, 60, 65, 73, 75, 89, 98, 99, 108, 109, 200, 255, 256, 300, 1000, 65535];
 
 impl SgrGen {
     pub fn new(opts: SgrOpts) -> Self {
-        SgrGen { ul: Ul::None, opts }
+        SgrGen { ul: Ul::None, opts, long_k: 0, long_runs_up_to: 0 }
     }
 
     fn num(rng: &mut Rng, n: u16, allow_empty_zero: bool) -> String {
         if n == 0 && allow_empty_zero && rng.chance(1, 3) {
             return String::new();
         }
-        match rng.below(8) {
-            0 => format!("0{n}"),
-            1 => format!("000{n}"),
+        match rng.below(16) {
+            0 | 1 => format!("0{n}"),
+            2 | 3 => format!("000{n}"),
+            4 => format!("{}{n}", "0".repeat(rng.range(4, 24) as usize)),
             _ => n.to_string(),
         }
     }
@@ -591,10 +600,52 @@ impl SgrGen {
         }
     }
 
+    /// a long run of visible text (length near a power-of-two threshold), optionally ended by CRLF
+    pub fn long_run(&mut self, rng: &mut Rng, out: &mut Vec<u8>, max_threshold: usize) {
+        let n = long_len(rng, max_threshold);
+        // a colour change right in front, so that the long run starts exactly here
+        self.long_k = self.long_k % 6 + 1;
+        out.extend_from_slice(format!("\x1b[3{}m", self.long_k).as_bytes());
+        let start = out.len();
+        let wide = rng.chance(1, 4);
+        while out.len() - start < n {
+            if wide && rng.chance(1, 6) {
+                out.extend_from_slice(rng.pick(&["\u{e9}", "\u{6f22}", "\u{1f600}", "\u{dc}"]).as_bytes());
+            } else {
+                out.push(*rng.pick(b"abcdefghij klmnopqrstuvwxyz.,-_"));
+            }
+        }
+        // end exactly at the wanted length when the run is pure ASCII
+        if !wide {
+            out.truncate(start + n);
+        }
+        if self.opts.ws {
+            match rng.below(4) {
+                0 => {
+                    // CRLF placed so that the CR is the last byte of the wanted length
+                    if !wide && n >= 2 {
+                        out.truncate(start + n - 1);
+                        out.extend_from_slice(b"\r\n");
+                    }
+                }
+                1 => out.push(b'\n'),
+                _ => {}
+            }
+        }
+    }
+
     pub fn document(&mut self, rng: &mut Rng, max_items: u64, extra: &[&str]) -> Vec<u8> {
         let mut out = Vec::new();
+        if rng.chance(1, 40) {
+            out.extend_from_slice("\u{feff}".as_bytes());
+        }
         let items = rng.range(0, max_items);
         for _ in 0..items {
+            if self.long_runs_up_to > 0 && rng.chance(1, 40) {
+                let thr = self.long_runs_up_to;
+                self.long_run(rng, &mut out, thr);
+                continue;
+            }
             match rng.below(10) {
                 0..=3 => self.text(rng, &mut out, extra),
                 4..=7 => self.sgr_sequence(rng, &mut out),
@@ -607,7 +658,47 @@ impl SgrGen {
 }
 
 pub fn gen_sgr_text(rng: &mut Rng, opts: SgrOpts, max_items: u64, extra: &[&str]) -> Vec<u8> {
-    SgrGen::new(opts).document(rng, max_items, extra)
+    let mut g = SgrGen::new(opts);
+    // one document in four may contain long runs (lengths on power-of-two thresholds)
+    if rng.chance(1, 4) {
+        g.long_runs_up_to = 8192;
+    }
+    g.document(rng, max_items, extra)
+}
+
+/// Deterministic sweep: a run of exactly `len` visible bytes that starts right after a style change and is ended by
+/// `ending` (0: another style change, 1: CRLF whose CR is the last byte of the run, 2: reset, 3: end of input).
+pub fn threshold_document(len: usize, ending: u8, styled: bool) -> Vec<u8> {
+    let mut out = b"head\n".to_vec();
+    out.extend_from_slice(if styled { b"\x1b[1;32m" } else { b"\x1b[m" });
+    let body = b"abcdefghijklmnopqrstuvwxyz ";
+    match ending {
+        1 => {
+            for i in 0..len.saturating_sub(1) {
+                out.push(body[i % body.len()]);
+            }
+            out.extend_from_slice(b"\r\nnext line\r\n");
+            out.extend_from_slice(b"\x1b[31mred\x1b[0m end");
+        }
+        0 => {
+            for i in 0..len {
+                out.push(body[i % body.len()]);
+            }
+            out.extend_from_slice(b"\x1b[31mred\x1b[0m plain");
+        }
+        2 => {
+            for i in 0..len {
+                out.push(body[i % body.len()]);
+            }
+            out.extend_from_slice(b"\x1b[0m plain \x1b[4munder");
+        }
+        _ => {
+            for i in 0..len {
+                out.push(body[i % body.len()]);
+            }
+        }
+    }
+    out
 }
 
 // ------------------------------------------------------------------------------------------------
@@ -684,6 +775,120 @@ pub fn cuts_to_char_boundaries(s: &str, cuts: &[usize]) -> Vec<usize> {
         if c > 0 && c < s.len() && out.last() != Some(&c) {
             out.push(c);
         }
+    }
+    out
+}
+
+
+// ------------------------------------------------------------------------------------------------
+// long inputs: lengths that sit on internal thresholds (buffer sizes, block sizes, counter widths)
+
+pub const THRESHOLDS: [usize; 11] = [64, 128, 256, 512, 1024, 2048, 4096, 8192, 16384, 32768, 65536];
+
+/// a length within +-2 of a power-of-two threshold <= max_threshold (small thresholds more often)
+pub fn long_len(rng: &mut Rng, max_threshold: usize) -> usize {
+    let cands: Vec<usize> = THRESHOLDS.iter().copied().filter(|t| *t <= max_threshold.max(64)).collect();
+    // weight ~ 1/t so that the total work stays bounded
+    let t = loop {
+        let t = *rng.pick(&cands);
+        if t <= 1024 || rng.below((t / 512) as u64) == 0 {
+            break t;
+        }
+    };
+    let d = rng.range(0, 8) as i64 - 3;
+    (t as i64 + if d > 2 { rng.range(0, t as u64 / 2) as i64 } else { d }).max(1) as usize
+}
+
+/// One long piece of a single class, surrounded by short hostile pieces and followed by a second, short sequence of
+/// the same kind (so that state left behind by the long one becomes visible).
+pub fn gen_long_stream(rng: &mut Rng, max_threshold: usize, utf8_only: bool) -> Vec<u8> {
+    let mut out = if rng.chance(1, 2) { gen_stream(rng, 24, utf8_only) } else { b"hd ".to_vec() };
+    // leave whatever sequence the prefix left open
+    out.push(0x18);
+    if rng.chance(1, 2) {
+        out.extend_from_slice(b"\x1b[1;31merr\x1b[0m: ");
+    }
+    let n = long_len(rng, max_threshold);
+    let fill = |rng: &mut Rng, out: &mut Vec<u8>, n: usize, alphabet: &[u8]| {
+        for _ in 0..n {
+            out.push(*rng.pick(alphabet));
+        }
+    };
+    let special: [&[u8]; 8] = [b"\x7f", "\u{dc}".as_bytes(), "\u{2705}".as_bytes(), b"\n", b"\r\n", b"\t", b"\x00", "\u{e9}".as_bytes()];
+    match rng.below(8) {
+        0 | 1 => {
+            // plain printable ASCII run, one special piece somewhere inside (often right at a 64-byte block boundary)
+            let start = out.len();
+            fill(rng, &mut out, n, b"abcdefghijklmnopqrstuvwxyz ABC.,;:[]m0123456789");
+            let pos = if rng.chance(1, 2) { (rng.below((n / 64).max(1) as u64) as usize) * 64 + *rng.pick(&[0usize, 1, 10, 63]) } else { rng.below(n as u64) as usize };
+            let pos = start + pos.min(n - 1);
+            let sp: &[u8] = *rng.pick(&special[..]);
+            if !(utf8_only && std::str::from_utf8(sp).is_err()) && rng.chance(3, 4) {
+                let tail = out.split_off(pos);
+                out.extend_from_slice(sp);
+                out.extend_from_slice(&tail);
+            }
+        }
+        2 => {
+            // OSC payload
+            out.extend_from_slice(b"\x1b]");
+            out.extend_from_slice(*rng.pick(&[&b"0;"[..], b"52;c;", b"1337;File=inline=1:", b""]));
+            fill(rng, &mut out, n, b"abcdefghij;klmnopqrstuvwxyz=/+0123456789ABCDEF");
+            push_terminator(rng, &mut out);
+        }
+        3 => {
+            // DCS passthrough payload, possibly containing a character with a 0x9c byte (8-bit ST)
+            out.extend_from_slice(b"\x1bPq");
+            let start = out.len();
+            fill(rng, &mut out, n, b"#0;2;0;0;0~@-$?!1234567890abcdefg");
+            if rng.chance(1, 2) {
+                let pos = start + rng.below(n as u64) as usize;
+                let tail = out.split_off(pos);
+                out.extend_from_slice("\u{dc}".as_bytes());
+                out.extend_from_slice(&tail);
+            }
+            push_terminator(rng, &mut out);
+        }
+        4 => {
+            out.push(0x1b);
+            out.push(*rng.pick(b"X^_"));
+            fill(rng, &mut out, n, b"abcdefghijklmnopqrstuvwxyz 0123456789");
+            push_terminator(rng, &mut out);
+        }
+        5 => {
+            // CSI with a very long parameter section
+            out.extend_from_slice(b"\x1b[");
+            fill(rng, &mut out, n.min(4096), b"0123456789;;:");
+            out.push(*rng.pick(b"mHq"));
+        }
+        6 => {
+            // multi-byte text run
+            let start = out.len();
+            while out.len() - start < n {
+                out.extend_from_slice(rng.pick(&["\u{e9}", "\u{6f22}", "\u{1f600}", "a", " ", "\u{dc}", "\u{2705}"]).as_bytes());
+            }
+        }
+        _ => {
+            // long run ended by a style change, then more text
+            fill(rng, &mut out, n, b"abcdefghijklmnopqrstuvwxyz ");
+            out.extend_from_slice(b"\x1b[31mred\x1b[0m");
+        }
+    }
+    out.extend_from_slice(b" tail\n");
+    // second, short use of the same machinery
+    match rng.below(4) {
+        0 => out.extend_from_slice(b"\x1b]0;title\x07after"),
+        1 => out.extend_from_slice(b"\x1bP1$rx\x1b\\after"),
+        2 => out.extend_from_slice(b"\x1b[32mgreen\x1b[m after"),
+        _ => {}
+    }
+    if !utf8_only && rng.chance(1, 8) {
+        push_malformed_utf8(rng, &mut out);
+    }
+    let tail = gen_stream(rng, 24, utf8_only);
+    out.extend_from_slice(&tail);
+    if utf8_only && std::str::from_utf8(&out).is_err() {
+        out = String::from_utf8_lossy(&out).into_owned().into_bytes();
     }
     out
 }
